@@ -812,13 +812,22 @@ def run(pid, tier):
     fails, st = validate([traces[i] for i in good])
     per_clause = {}
     uninterp = list(UNINTERPRETABLE)
+    outside_c07 = 0
     for f in fails:
         per_clause[f['clause']] = per_clause.get(f['clause'], 0) + 1
         ti = good[f['trace']]
         if counts_for(pid, f['clause'], traces[ti]):
             ev = traces[ti][f['l'] - 1] if f['l'] - 1 < len(traces[ti]) else {}
+            if pid == 'C07' and f['clause'].startswith('C07.') and ev.get('c') in set(e['id'] for e in traces[ti] if e['ev'] == 'CopyCirc'):
+                # C07 speaks about circuits built through the builder API ("created against the registry of the circuit or of a
+                # sub-circuit that is later nested"); an explicit copy() of a whole structure is the harness' device for C05 --
+                # its measurements keep the registry of the source circuit and are outside C07's domain
+                outside_c07 += 1
+                continue
             v.fail(f['clause'], {'trace': ti, 'event': f['l'], 'obj': f['obj'], 'info': f['info']},
                    signature=signature(f, ev, traces[ti], programs[ti]), replay={'program': programs[ti]})
+    if outside_c07:
+        v.notes.append('%d C07 clause failure(s) on explicit structure copies (outside the domain of C07) not counted' % outside_c07)
     if pid == 'C15':
         sessions_check(v)
     if pid == 'C02':
